@@ -525,6 +525,20 @@ def run(model, rep):
     rule_j(model, rep)
     rule_k(model, rep)
     # check_password() answers through handler.verify(): verify() must recompute with what hash() was given (user, realm, encoding)
+    # the digest is md5(user:realm:password) over the bytes of the *file's* encoding: each of the three text fields is converted with the
+    # `encoding` argument (which HtdigestFile passes), never with a fixed or default one
+    DG = "passlib.handlers.digests"
+    fn = model.func(DG, "htdigest.hash")
+    R16 = "C16.m-digest-encoding"
+    conv = {}
+    for n in walk_no_nested(fn):
+        if isinstance(n, ast.Call) and ast.unparse(n.func) == "to_bytes" and n.args and isinstance(n.args[0], ast.Name):
+            conv[n.args[0].id] = ast.unparse(n.args[1]) if len(n.args) > 1 else next((ast.unparse(k.value) for k in n.keywords if k.arg == "encoding"), "<default>")
+        if isinstance(n, ast.Call) and isinstance(n.func, ast.Attribute) and n.func.attr == "encode" and isinstance(n.func.value, ast.Name):
+            conv[n.func.value.id] = ast.unparse(n.args[0]) if n.args else "<default>"
+    for fld in ("secret", "user", "realm"):
+        rep.check(conv.get(fld) == "encoding", R16, f"{DG}:htdigest.hash {fld}", f"{fld} converted with {conv.get(fld)!r}", f"`{fld}` is converted to bytes with the `encoding` argument",
+                  witness=f"HtdigestFile(encoding='latin-1').set_password('user', 'r\u00e9alm', 'pw') stores a digest that check_password() rejects (and that differs from md5 of the latin-1 bytes): `{fld}` was encoded with another codec")
     from .shared import handler_site_filter
     from pv.handlers import HandlerTable
     only, used = handler_site_filter(model, HandlerTable(model), ("passlib.apache",), extra_names=("htdigest",))
